@@ -319,6 +319,16 @@ def loop(tid, nthreads, rounds, seed, perf, out, barrier=None):
         st["rt"] = rt
         S.reset()
         rt.attach()
+        # requests that are refused when they are made (an unhashable argument, too many arguments): the caller
+        # gets its TypeError and nobody else is affected
+        refused = 0
+        for bad_args in (([1, 2],), (1, 2, 3, 4), ({"k": 1},)):
+            try:
+                F["dd"].asynq(*bad_args)
+            except TypeError:
+                refused += 1
+        if refused != 3:
+            viol.append(("malformed-deduplicated-request-was-not-refused", {"thread": tid, "refused": refused}))
         try:
             v = F["dd_round"](7)
         except BaseException as e:
